@@ -141,3 +141,126 @@ def ob_path_roundtrip(ex, prefix_components=0):
             return Obligation(name, ["C18"], "inconclusive", time.time() - t0, "no path", None, ex.queries - q0, 0)
         return Obligation(name, ["C18"], "discharged", time.time() - t0, f"{len(outs)} paths, {n} queries over 32 symbolic bytes", None,
                           ex.queries - q0, len(outs))
+
+
+# ---- C16: BlobHash::from_relative_path is TOTAL on arbitrary paths -------------------------------------------
+# The path is abstract: 0..4 components (a prefix of arbitrary further components does not matter to a parser that
+# looks at the last three), every component an arbitrary byte string of symbolic length; as UTF-8 text it has a
+# symbolic length and its character boundaries are unknown (a multi-byte character may sit anywhere).  Decided: no
+# path of the function panics.  String/slice operations that can panic are modelled with their panic condition:
+# str::split_at / slicing at a position that is not provably a character boundary, or beyond the end.
+
+def install_abstract(ex, st0):
+    R = ex.models.reg
+    cnt = [0]
+
+    def absbytes(tag):
+        cnt[0] += 1
+        n = z3.Int(f"{tag}_len{cnt[0]}")
+        st0.pc += [n >= 0, n <= (1 << 20)]
+        return VOpaque("bytes", ("slice", (tag, cnt[0]), z3.IntVal(0), n))
+
+    def m_components(ex2, st, fr, c, a, d, r):
+        p = deref_all(st, a[0])
+        if not (isinstance(p, VOpaque) and p.tag == "abspath"):
+            raise Unsupported(f"components of {p}")
+        outs = []
+        k = p.data["ncomp"]
+        for n in range(0, 5):
+            cond = (k == n) if n < 4 else (k >= 4)
+            if not ex2.feasible(st.pc, cond):
+                continue
+            s2 = st.clone()
+            s2.pc.append(cond)
+            comps = [VStruct("Component", [VOpaque("bytes", ("slice", ("comp", i), z3.IntVal(0), p.data["clen"][i]))]) for i in range(n)]
+            outs += ex2.finish_call(s2, d, r, VIter([(None, x) for x in comps]))
+        return outs
+
+    def m_to_str(ex2, st, fr, c, a, d, r):
+        p = deref_all(st, a[0])
+        if not (isinstance(p, VOpaque) and p.tag == "abspath"):
+            raise Unsupported(f"to_str of {p}")
+        outs = []
+        s2 = st.clone()
+        s2.pc.append(z3.Not(p.data["utf8"]))
+        outs += ex2.finish_call(s2, d, r, none())
+        st.pc.append(p.data["utf8"])
+        outs += ex2.finish_call(st, d, r, some(VRef(st.alloc(VOpaque("absstr", {"len": p.data["slen"], "id": "path"})))))
+        return outs
+
+    def strv(st, v):
+        s = deref_all(st, v)
+        if not (isinstance(s, VOpaque) and s.tag == "absstr"):
+            raise Unsupported(f"string operation on {s}")
+        return s
+
+    def m_split_at(ex2, st, fr, c, a, d, r):
+        s = strv(st, a[0])
+        mid, ln = a[1].t, s.data["len"]
+        # std: panics unless mid <= len and is_char_boundary(mid); only 0 and len are boundaries of EVERY string
+        safe = z3.Or(mid == 0, mid == ln)
+        outs = []
+        if ex2.feasible(st.pc, z3.Not(safe)):
+            s2 = st.clone()
+            s2.pc.append(z3.Not(safe))
+            s2.status, s2.note = "panic", "str::split_at at a byte index that is not a character boundary (or beyond the end)"
+            s2.meta["split_at"] = (mid, ln)
+            outs.append(s2)
+        st.pc.append(safe)
+        left = VRef(st.alloc(VOpaque("absstr", {"len": mid, "id": "left"})))
+        right = VRef(st.alloc(VOpaque("absstr", {"len": ln - mid, "id": "right"})))
+        outs += ex2.finish_call(st, d, r, VStruct("tuple", [left, right]))
+        return outs
+
+    R(["Path::components"], m_components)
+    R(["Path::to_str", "OsStr::to_str"], m_to_str)
+    R(["str::len"], lambda ex2, st, fr, c, a, d, r: VInt(strv(st, a[0]).data["len"], "usize"))
+    R(["str::is_empty"], lambda ex2, st, fr, c, a, d, r: VBool(strv(st, a[0]).data["len"] == 0))
+    R(["str::split_at", "str::split_at_mut"], m_split_at)
+    R(["str::as_bytes"], lambda ex2, st, fr, c, a, d, r: VRef(st.alloc(VOpaque("bytes", ("slice", ("str", strv(st, a[0]).data["id"]), z3.IntVal(0), strv(st, a[0]).data["len"])))))
+    R(["Component::as_os_str", "OsStr::as_encoded_bytes"], lambda ex2, st, fr, c, a, d, r: (
+        VRef(st.alloc(deref_all(st, a[0]).fields[0])) if isinstance(deref_all(st, a[0]), VStruct) else a[0]))
+    R(["hex::decode_to_slice", "decode_to_slice"], lambda ex2, st, fr, c, a, d, r: VEnum("Result", z3.If(ex2.fresh("hexok", "bool"), z3.IntVal(0), z3.IntVal(1)),
+                                                                                     {0: [VUnit()], 1: [VEnum("FromHexError", 2, {2: []})]}))
+    ex.si.enums.setdefault("FromHexError", [("InvalidHexCharacter", ["c", "index"]), ("OddLength", []), ("InvalidStringLength", [])])
+
+
+def ob_path_total(ex):
+    with scoped_models(ex):
+        t0 = time.time()
+        q0 = ex.queries
+        st = State()
+        ncomp = z3.Int("path_ncomp")
+        clen = [z3.Int(f"path_clen{i}") for i in range(4)]
+        slen = z3.Int("path_strlen")
+        utf8 = z3.Bool("path_is_utf8")
+        st.pc += [ncomp >= 0, ncomp <= 64, slen >= 0, slen <= (1 << 20)] + [z3.And(c >= 0, c <= (1 << 16)) for c in clen]
+        install_abstract(ex, st)
+        p = VOpaque("abspath", {"ncomp": ncomp, "clen": clen, "slen": slen, "utf8": utf8})
+        fn = find_fn(ex, "::from_relative_path", "types::")
+        old_lb = ex.loop_bound
+        ex.loop_bound = 6
+        try:
+            ex.start(st, fn, [VRef(st.alloc(p))])
+            finals = ex.run(st)
+        finally:
+            ex.loop_bound = old_lb
+        name = ("BlobHash::from_relative_path is total: no panic on ANY path (0..4+ components of arbitrary bytes and lengths, valid UTF-8 or not, "
+                "multi-byte characters anywhere)")
+        # a feasible panic path is a finding by itself, whatever the other paths run into
+        for f in finals:
+            if f.status == "panic":
+                r, m = ex.model_of(f.pc)
+                cex = {"violation": "path-panic", "detail": f.note}
+                if m is not None:
+                    cex["path_strlen"] = m.eval(slen, model_completion=True).as_long()
+                    if "split_at" in f.meta:
+                        cex["split_mid"] = m.eval(f.meta["split_at"][0], model_completion=True).as_long()
+                        cex["split_len"] = m.eval(f.meta["split_at"][1], model_completion=True).as_long()
+                return Obligation(name, ["C16"], "violated", time.time() - t0, "from_relative_path can panic: " + f.note, cex, ex.queries - q0, len(finals))
+        for f in finals:
+            if f.status in ("unsupported", "cut"):
+                return Obligation(name, ["C16"], "inconclusive", time.time() - t0, f"{f.status}: {f.note}", None, ex.queries - q0, len(finals))
+        if not finals:
+            return Obligation(name, ["C16"], "inconclusive", time.time() - t0, "no path", None, ex.queries - q0, 0)
+        return Obligation(name, ["C16"], "discharged", time.time() - t0, f"{len(finals)} paths, none panics", None, ex.queries - q0, len(finals))
